@@ -571,5 +571,5 @@ var gridSources = []string{
 	"v0[v1]?.(v2)", "v0()[v1()]?.(v2)", "v0?.p1?.(v1)", "v0?.p1.p2?.(v1)", "v0?.p1?.().p2(v1)", "v0?.()?.()", "v0?.p1?.()?.p2?.()", "(v0?.p1)(v1)", "(v0?.p1.p2)(v1)", "(v0?.[v1])(v2)",
 	"(v0?.p1).p2", "(v0?.p1)?.p2", "(v0?.p1).p2(v1)", "delete v0?.p1", "delete v0?.p1.p2", "delete v0?.[v1]", "delete v0()?.p1", "delete v0.p1", "delete (v0?.p1).p2",
 	"null?.p1", "undefined?.p1.p2(v0)", "delete null?.p1", "this?.p1", "this.p1?.(v0)", "1?.p1", "\"s1\"?.p1?.()", "v0?.[v1?.p1]", "v0?.(v1?.p1)", "(v0 ?? v1)?.p1", "v0?.p1 ?? v1",
-	"(v0?.p1).p2 ??= v1", "(v0?.p1)[v1?.p2] ||= v2", "v0?.p1?.p2?.p3?.p4", "v0?.p1(v1)(v2)", "v0?.p1(v1)?.(v2)", "(v0?.())()", "(v0?.p1())()",
+	"(null ?? v0.p1)?.(v1)", "(null ?? v0.p1)(v1)", "(undefined ?? v0[v1])?.()", "((v2, null) ?? v0.p1)?.(v1)", "v0()?.[v1()]?.(v2())", "(v0?.[v1()])(v2)", "delete v0()?.p1.p2[v1]", "(v0?.p1).p2 ??= v1", "(v0?.p1)[v1?.p2] ||= v2", "v0?.p1?.p2?.p3?.p4", "v0?.p1(v1)(v2)", "v0?.p1(v1)?.(v2)", "(v0?.())()", "(v0?.p1())()",
 }
